@@ -191,6 +191,44 @@ func C15(run *vf.Run) {
 			run.Eval("ipmatch-" + a + ip)
 		}
 	}
+	// list entries of every written form (reference: a bare address is a host route of its own family, net.IPNet otherwise)
+	for _, entry := range []string{"10.0.0.1", "::ffff:10.0.0.1", "::ffff:0a00:0001", "::1", "fe80::1", "fe80::/10", "::ffff:10.0.0.0/120", "10.0.0.1,::1", "2001:db8::1"} {
+		o, err := getOp("ipMatch", entry)
+		if err != nil {
+			run.Inconclusive("ipMatch %q rejected: %v", entry, err)
+			return
+		}
+		var nets []*net.IPNet
+		for _, e := range strings.Split(entry, ",") {
+			cs := e
+			if !strings.Contains(cs, "/") {
+				if ip := net.ParseIP(cs); ip != nil && !strings.Contains(cs, ":") {
+					cs += "/32"
+				} else {
+					cs += "/128"
+				}
+			}
+			if _, n, err := net.ParseCIDR(cs); err == nil {
+				nets = append(nets, n)
+			}
+		}
+		for _, ip := range []string{"10.0.0.1", "10.0.0.2", "::ffff:10.0.0.1", "::ffff:10.0.0.9", "::1", "::2", "fe80::1", "fe80::2", "febf::1", "2001:db8::1", "2001:db8::2", "0.0.0.1", "::ffff:0.0.0.1"} {
+			parsed := net.ParseIP(ip)
+			want := false
+			for _, n := range nets {
+				if parsed != nil && n.Contains(parsed) {
+					want = true
+				}
+			}
+			got, p := eval(o, ip)
+			if p != "" {
+				report("panic", "ipMatch", entry, []byte(ip), p)
+			} else if got != want {
+				report("predicate-differs", "ipMatch", entry, []byte(ip), fmt.Sprintf("the operator returned %v, membership in the listed networks (net.IPNet) is %v", got, want))
+			}
+			run.Eval("ipmatch-entry-" + entry + ip)
+		}
+	}
 	// @pmFromFile and @pmFromDataset: the phrases of a file / data set (blank and whitespace-only lines,
 	// comments, padded phrases) behave like @pm on the same phrases: pair index of @pm "ab Aa"
 	pmIdx := -1
